@@ -137,6 +137,111 @@ Definition reachable (progs : list (list kind)) (ws : bool) (s : st) : Prop :=
 
 Definition quiescent (s : st) : Prop := forall t, tstep s t = None.
 
+(* ------------------------------------------------------------------ Part 1i *)
+(* Task ids.  Post builds  t := &RunTask{id: runtaskidservice.AllocId(), cb: cb}  BEFORE the
+   channel send.  AllocId is  atomic.AddUint32(&s.nextId, 1)  on ONE process-wide counter
+   (initial value 1) without any wrap handling: the id is the new counter value in uint32
+   arithmetic, so after 4294967295 comes 0.  DoTask(t) = doTask(t) runs t.cb under recover and
+   never looks at t.id.
+     Go                                           model
+     runtaskidservice.nextId (uint32)             [i_ctr]
+     AllocId()                                    [alloc_id]: (next + 1) mod 2^32
+     a poster between AllocId and the send        [i_held] (it keeps its RunTask while blocked)
+     RunTask.id of a queued task                  [i_qids], parallel to [queue]
+     DoTask(t)                                    [do_task_t]
+   [istep] is [tstep] with this bookkeeping added; [IAlloc i] lets poster i run AllocId at any
+   earlier moment than its send, so ids need not enter the queue in allocation order. *)
+
+Definition two32 : Z := 4294967296.
+Definition wrap32 (z : Z) : Z := z mod two32.
+
+Definition alloc_id (next : Z) : Z := wrap32 (next + 1).
+
+Record runtask := mkT { t_id : Z; t_item : item }.
+
+(* Sche.DoTask(t) { s.doTask(t) } *)
+Definition do_task_t (t : runtask) : res := do_task (snd (t_item t)).
+
+Inductive ilabel := IAlloc (i : nat) | IStep (t : tid).
+
+Record ist := mkI {
+  i_st : st;
+  i_ctr : Z;
+  i_held : list (nat * Z);                (* poster, id of the RunTask it built and has not sent yet *)
+  i_qids : list Z;
+  i_xids : list (cid * Z);                (* execution log with the id of the RunTask that was run *)
+  i_given : list (cid * Z)                (* ghost: Post call, id allocated for it; allocation order *)
+}.
+
+Definition held_of (i : nat) (h : list (nat * Z)) : option Z :=
+  match find (fun x => Nat.eqb (fst x) i) h with Some x => Some (snd x) | None => None end.
+
+Definition unhold (i : nat) (h : list (nat * Z)) : list (nat * Z) :=
+  filter (fun x => negb (Nat.eqb (fst x) i)) h.
+
+(* the Post call poster i makes next *)
+Definition next_cid (s : st) (i : nat) : option cid :=
+  match nth_error (posters s) i with
+  | Some (mkP n (_ :: _)) => Some (i, n)
+  | _ => None
+  end.
+
+Definition i_alloc (s : ist) (i : nat) : option ist :=
+  match held_of i (i_held s), next_cid (i_st s) i with
+  | None, Some c =>
+      let id := alloc_id (i_ctr s) in
+      Some (mkI (i_st s) id (i_held s ++ [(i, id)]) (i_qids s) (i_xids s) (i_given s ++ [(c, id)]))
+  | _, _ => None
+  end.
+
+Definition istep (s : ist) (l : ilabel) : option ist :=
+  match l with
+  | IAlloc i => i_alloc s i
+  | IStep (TPost i) =>
+      let s1 := match i_alloc s i with Some s' => s' | None => s end in
+      match held_of i (i_held s1) with
+      | None => None                      (* poster i has nothing left to post *)
+      | Some id =>
+          match tstep (i_st s1) (TPost i) with
+          | None => Some s1               (* blocked in the send, RunTask in hand *)
+          | Some st' =>
+              Some (mkI st' (i_ctr s1) (unhold i (i_held s1))
+                        (if stopped (i_st s1) then i_qids s1 else i_qids s1 ++ [id])
+                        (i_xids s1) (i_given s1))
+          end
+      end
+  | IStep TCons =>
+      (* t := <-chanTask; DoTask(t): [tstep _ TCons] runs [do_task] of the head's closure, which
+         is [do_task_t] of the RunTask (t.id plays no part) *)
+      match tstep (i_st s) TCons with
+      | Some st' =>
+          let ran := match queue (i_st s), i_qids s with
+                     | it :: _, id :: _ => [(fst it, t_id (mkT id it))]
+                     | _, _ => []
+                     end in
+          Some (mkI st' (i_ctr s) (i_held s) (tl (i_qids s)) (i_xids s ++ ran) (i_given s))
+      | None => None
+      end
+  | IStep t =>
+      match tstep (i_st s) t with
+      | Some st' => Some (mkI st' (i_ctr s) (i_held s) (i_qids s) (i_xids s) (i_given s))
+      | None => None
+      end
+  end.
+
+(* [c0]: ANY value of the process-wide counter when this scheduler starts to be used *)
+Definition iinit (progs : list (list kind)) (with_stop : bool) (c0 : Z) : ist :=
+  mkI (init progs with_stop) c0 [] [] [] [].
+
+Definition istep_or_stay (s : ist) (l : ilabel) : ist :=
+  match istep s l with Some s' => s' | None => s end.
+
+Definition irun (s : ist) (ls : list ilabel) : ist := fold_left istep_or_stay ls s.
+
+(* forgetting the ids: what is left of an id-annotated schedule *)
+Definition erase (ls : list ilabel) : list tid :=
+  flat_map (fun l => match l with IStep t => [t] | IAlloc _ => [] end) ls.
+
 (* ------------------------------------------------------------------ Part 2 *)
 
 Definition cb := (bool * list Z)%type.    (* one callback invocation: err flag, results *)
@@ -223,6 +328,46 @@ Definition cstep_or_stay (tasks : list beh) (s : cst) (l : clabel) : cst :=
 
 Definition crun (tasks : list beh) (ls : list clabel) : cst :=
   fold_left (cstep_or_stay tasks) ls cinit.
+
+(* ------------------------------------------------------------------ Part 2s *)
+(* Shared task lists.  Chain.tasks is NOT a copy: it is the slice header the caller handed to
+   waterfall.Sche (Builder.Do passes b.tasks), so its backing array is shared with the caller
+   and with every other chain started over the same slice / the same prepared Builder -
+   one after the other or at the same time.  tryExec / invokeTask READ c.tasks[index] at the
+   moment of the call and nothing in the package writes to it.
+     the caller's task slices (backing arrays)    [sh_mem], addressed by position
+     a chain: (which slice it was given, state)   [sh_chains], numbered in start order
+   [cstep_mem] is [cstep] with the array threaded through: it returns what the step leaves in
+   the array (today: what it found). *)
+
+Definition cstep_mem (mem : list beh) (s : cst) (l : clabel) : option (list beh * cst) :=
+  match cstep mem s l with Some s' => Some (mem, s') | None => None end.
+
+Record shst := mkSh { sh_mem : list (list beh); sh_chains : list (nat * cst) }.
+
+Inductive shlabel :=
+| ShStart (l : nat)                       (* waterfall.Sche(sche, lists[l], final) *)
+| ShStep (c : nat) (lab : clabel).        (* chain c: the consumer runs one of its closures / the environment completes a task *)
+
+Definition shstep (s : shst) (l : shlabel) : option shst :=
+  match l with
+  | ShStart l => Some (mkSh (sh_mem s) (sh_chains s ++ [(l, cinit)]))
+  | ShStep c lab =>
+      match nth_error (sh_chains s) c with
+      | Some (l, cs) =>
+          match cstep_mem (nth l (sh_mem s) []) cs lab with
+          | Some (m', cs') => Some (mkSh (set_nth l m' (sh_mem s)) (set_nth c (l, cs') (sh_chains s)))
+          | None => None
+          end
+      | None => None
+      end
+  end.
+
+Definition shstep_or_stay (s : shst) (l : shlabel) : shst :=
+  match shstep s l with Some s' => s' | None => s end.
+
+Definition shrun (mem : list (list beh)) (ls : list shlabel) : shst :=
+  fold_left shstep_or_stay ls (mkSh mem []).
 
 
 (* ------------------------------------------------------------------ Part 2b *)
@@ -469,8 +614,19 @@ Inductive op :=
 | OConc (mode : Z) (progs : list (list kind))   (* fresh Sche, real consumer loop, concurrent posters *)
 | OConcN (mode np n : Z)                 (* OConc mode (np programs of n returning closures) *)
 | OConcW (mode : Z) (chains : list (list beh))  (* fresh Sche, real Handler, concurrent chains *)
-| OConcReg (trials g : Z).               (* per trial a fresh name: NewRunService(name).Start() races with g goroutines doing
+| OConcReg (trials g : Z)                (* per trial a fresh name: NewRunService(name).Start() races with g goroutines doing
                                             GetScheMgr().GetSche(name).Post(f); expected: one scheduler, every f runs once: no event *)
+| OSetId (v : Z)                         (* position the process-wide task id counter: the next Post gets (v+1) mod 2^32.
+                                            Every case starts at 1 (the value in a fresh process) *)
+| OList (l : Z) (tasks : list beh)       (* the caller defines task list l ONCE: one []waterfall.Task, one final, and
+                                            one prepared Builder over the same functions *)
+| OShare (c l r : Z)                     (* chain c over the SHARED list l: r = 0 waterfall.Sche(s, list, final),
+                                            1 the prepared builder's Do(), 2 Simple(list, final), 3 ExecAndWait(list, final) *)
+| OConcS (mode ns rounds : Z) (tasks : list beh).
+                                         (* ns schedulers with the real Handler, concurrently; on each, [rounds] chains one
+                                            after the other; ALL ns*rounds chains over one shared slice (mode 0) / each
+                                            scheduler's chains through one prepared Builder (mode 1).  Chain j*rounds+k is
+                                            the k-th chain of scheduler j *)
 
 Inductive sev :=
 | SExec (p n : Z)
@@ -481,7 +637,9 @@ Inductive sev :=
 | SEsc (c : Z)                           (* a panic reached the goroutine that called Simple / ExecAndWait / a callback of chain c *)
 | SHang (c : Z)                          (* a goroutine of chain c is blocked for ever in chanNext <- *)
 | SMgr (id : Z)                          (* GetSche returned the id-th distinct scheduler (numbered by first appearance) *)
-| SBad (code : Z).                       (* a measured invariant failed in the harness (never expected) *)
+| SBad (code : Z)                        (* a measured invariant failed in the harness (never expected) *)
+| SId (id : Z).                          (* id-tracked scripts (those with an OSetId): RunTask.id of the task the consumer
+                                            just received, before DoTask *)
 
 Inductive obs :=
 | Obs (per_op : list (list sev)) (drain : list sev) (posts : list (Z * list bool)) (gor esc : bool)
@@ -505,27 +663,50 @@ Definition progs_of (ops : list op) : list (list kind) :=
 
 Definition is_chain_op (o : op) : bool :=
   match o with
-  | OChain _ _ | OChainB _ _ | OSimple _ _ | OWait _ _ | OFire _ _ _ | OMgrGet _ | OMgrDel _ => true
+  | OChain _ _ | OChainB _ _ | OSimple _ _ | OWait _ _ | OFire _ _ _ | OMgrGet _ | OMgrDel _
+  | OList _ _ | OShare _ _ _ => true
   | _ => false
   end.
+
+Definition is_conc_op (o : op) : bool :=
+  match o with OConc _ _ | OConcN _ _ _ | OConcW _ _ | OConcReg _ _ | OConcS _ _ _ _ => true | _ => false end.
+
+Definition is_setid (o : op) : bool := match o with OSetId _ => true | _ => false end.
+
+(* id-tracked script: the harness reports the id of every task its consumer receives *)
+Definition tracked (ops : list op) : bool := existsb is_setid ops.
 
 Definition beh_size (b : beh) : nat := length (completions b).
 Definition chain_size (t : list beh) : nat := S (fold_right (fun b a => beh_size b + a)%nat O t).
 
-Definition op_posts (o : op) : nat :=
+(* the shared task lists a script declares: the first declaration of an id wins *)
+Fixpoint lists_of (ops : list op) : alist (list beh) :=
+  match ops with
+  | [] => []
+  | OList l t :: r => aset l t (lists_of r)       (* built from the back: earlier declarations overwrite later ones *)
+  | _ :: r => lists_of r
+  end.
+
+Definition op_posts (ls : alist (list beh)) (o : op) : nat :=
   match o with
   | OPost _ _ => 1
   | OPostN _ n => Z.to_nat n
   | OChain _ t | OChainB _ t => chain_size t
+  | OShare _ l _ => match aget l ls with Some t => chain_size t | None => 0 end
   | _ => 0
   end.
 
-Definition total_posts (ops : list op) : nat := fold_right (fun o a => op_posts o + a)%nat O ops.
+Definition total_posts (ops : list op) : nat :=
+  fold_right (fun o a => op_posts (lists_of ops) o + a)%nat O ops.
 
 Definition in_range (lo x hi : Z) : bool := (lo <=? x) && (x <? hi).
 
 Definition has_panic (progs : list (list kind)) : bool :=
   existsb (existsb (fun k => match k with KPanic => true | KOk => false end)) progs.
+
+(* completes exactly once and returns *)
+Definition settles (b : beh) : bool :=
+  match b with Beh [_] [] false | Beh [] [_] false => true | _ => false end.
 
 Definition valid_op (o : op) : bool :=
   match o with
@@ -540,13 +721,21 @@ Definition valid_op (o : op) : bool :=
   | OConcN m np n => in_range 0 m 5 && in_range 0 np 65 && in_range 0 n 20001
   | OConcW m _ => in_range 0 m 2
   | OConcReg t g => in_range 0 t 5001 && in_range 1 g 33
+  | OSetId v => in_range 0 v two32
+  | OList l _ => in_range 0 l 64
+  | OShare c l r => (0 <=? c) && in_range 0 l 64 && in_range 0 r 4
+  | OConcS m ns rd t => in_range 0 m 2 && in_range 1 ns 9 && in_range 0 rd 65 && forallb settles t
   end.
 
 (* chain scripts never fill the queue: a Post made by the consumer goroutine itself on a full
-   queue blocks the consumer for ever (stated in the comment of Sche.Post) *)
+   queue blocks the consumer for ever (stated in the comment of Sche.Post).
+   The id counter is process-wide: in an id-tracked script the ids of scripted tasks are only
+   determined when no concurrent block (whose number of Posts is not) runs next to them. *)
 Definition valid (ops : list op) : bool :=
   forallb valid_op ops
-  && (negb (existsb is_chain_op ops) || Nat.ltb (total_posts ops) (cap - 100)).
+  && (negb (existsb is_chain_op ops) || Nat.ltb (total_posts ops) (cap - 100))
+  && negb (tracked ops && existsb is_conc_op ops
+           && existsb (fun o => negb (is_conc_op o || is_setid o)) ops).
 
 (* ---- concurrent blocks: the expected observation is a set, see [accepts_conc] *)
 
@@ -624,7 +813,11 @@ Definition concw_expected (chains : list (list beh)) : option (list sev) :=
 Record drv := mkD {
   d_st : st;
   d_wait : list nat;                      (* posters blocked in Post, in blocking order *)
-  d_back : list nat                       (* per poster: script posts not yet attempted *)
+  d_back : list nat;                      (* per poster: script posts not yet attempted *)
+  d_ctr : Z;                              (* the process-wide task id counter *)
+  d_qids : list Z;                        (* RunTask.id of the queued tasks, parallel to [queue] (Part 1i) *)
+  d_hold : list (nat * Z);                (* blocked posters: the id of the RunTask in their hands *)
+  d_track : bool
 }.
 
 Definition get_back (d : drv) (p : nat) : nat := nth p (d_back d) O.
@@ -633,11 +826,15 @@ Definition nat_mem (p : nat) (l : list nat) : bool := existsb (Nat.eqb p) l.
 
 Definition drv_post (d : drv) (p : nat) : drv :=
   if nat_mem p (d_wait d) then
-    mkD (d_st d) (d_wait d) (set_nth p (S (get_back d p)) (d_back d))
+    mkD (d_st d) (d_wait d) (set_nth p (S (get_back d p)) (d_back d)) (d_ctr d) (d_qids d) (d_hold d) (d_track d)
   else
+    (* poster p enters Post: AllocId (Part 1i), then the send *)
+    let id := alloc_id (d_ctr d) in
     match tstep (d_st d) (TPost p) with
-    | Some s' => mkD s' (d_wait d) (d_back d)
-    | None => mkD (d_st d) (d_wait d ++ [p]) (d_back d)
+    | Some s' =>
+        mkD s' (d_wait d) (d_back d) id
+            (if stopped (d_st d) then d_qids d else d_qids d ++ [id]) (d_hold d) (d_track d)
+    | None => mkD (d_st d) (d_wait d ++ [p]) (d_back d) id (d_qids d) (d_hold d ++ [(p, id)]) (d_track d)
     end.
 
 Fixpoint iter {A} (n : nat) (f : A -> A) (a : A) : A :=
@@ -646,32 +843,41 @@ Fixpoint iter {A} (n : nat) (f : A -> A) (a : A) : A :=
 Definition sev_of_item (it : item) : sev := SExec (zn (fst (fst it))) (zn (snd (fst it))).
 
 (* one receive + DoTask; when a sender was blocked the Go runtime moves its value into the
-   freed slot, the sender resumes with its next script post and blocks again *)
+   freed slot, the sender resumes with its next script post (AllocId) and blocks again *)
 Definition drv_step (d : drv) : drv * list sev :=
   match tstep (d_st d) TCons with
   | None => (d, [])
   | Some s1 =>
-      let e := match queue (d_st d) with it :: _ => [sev_of_item it] | [] => [] end in
+      let e := match queue (d_st d) with
+               | it :: _ => (if d_track d then [SId (hd (-1) (d_qids d))] else []) ++ [sev_of_item it]
+               | [] => []
+               end in
+      let qids := tl (d_qids d) in
       match d_wait d with
-      | [] => (mkD s1 [] (d_back d), e)
+      | [] => (mkD s1 [] (d_back d) (d_ctr d) qids (d_hold d) (d_track d), e)
       | p :: w =>
           let s2 := step_or_stay s1 (TPost p) in
+          let qids2 := match held_of p (d_hold d) with Some id => qids ++ [id] | None => qids end in
+          let hold2 := unhold p (d_hold d) in
           match get_back d p with
-          | O => (mkD s2 w (d_back d), e)
-          | S b => (mkD s2 (w ++ [p]) (set_nth p b (d_back d)), e)
+          | O => (mkD s2 w (d_back d) (d_ctr d) qids2 hold2 (d_track d), e)
+          | S b =>
+              let id := alloc_id (d_ctr d) in
+              (mkD s2 (w ++ [p]) (set_nth p b (d_back d)) id qids2 (hold2 ++ [(p, id)]) (d_track d), e)
           end
       end
   end.
 
 (* close(chanTask): every blocked sender panics inside Post (recovered, nil); so do its
-   remaining script posts *)
+   remaining script posts, each after its own AllocId (none of them is ever queued) *)
 Definition drv_stop (d : drv) : drv :=
   match tstep (d_st d) TStop with
   | None => d
   | Some s1 =>
       let s2 := fold_left (fun s p => iter (S (get_back d p)) (fun s => step_or_stay s (TPost p)) s)
                           (d_wait d) s1 in
-      mkD s2 [] (map (fun _ => O) (d_back d))
+      let later := fold_right (fun p a => (get_back d p + a)%nat) O (d_wait d) in
+      mkD s2 [] (map (fun _ => O) (d_back d)) (wrap32 (d_ctr d + zn later)) (d_qids d) [] (d_track d)
   end.
 
 
@@ -681,6 +887,7 @@ Definition drv_op (d : drv) (o : op) : drv * list sev :=
   | OPostN p n => (iter (Z.to_nat n) (fun d => drv_post d (Z.to_nat p)) d, [])
   | OStep => drv_step d
   | OStop => (drv_stop d, [])
+  | OSetId v => (mkD (d_st d) (d_wait d) (d_back d) v (d_qids d) (d_hold d) (d_track d), [])
   | _ => (d, [])
   end.
 
@@ -719,7 +926,7 @@ Definition has_stop (ops : list op) : bool :=
   existsb (fun o => match o with OStop => true | _ => false end) ops.
 
 Definition drv_init (ops : list op) : drv :=
-  mkD (init (progs_of ops) (has_stop ops)) [] (repeat O nposters).
+  mkD (init (progs_of ops) (has_stop ops)) [] (repeat O nposters) 1 [] [] (tracked ops).
 
 (* the Part-1 state a scheduler script ends in (Proofs.v: it is [reachable]) *)
 Definition script_state (ops : list op) : st :=
@@ -763,40 +970,63 @@ Record wst := mkW {
   w_chains : alist chain_state;
   w_mgr : mgr_state;
   w_seq : list nat;                       (* per poster: next sequence number *)
-  w_posts : list (list bool)              (* per poster: Post results so far, reversed *)
+  w_posts : list (list bool);             (* per poster: Post results so far, reversed *)
+  w_qids : list Z;                        (* RunTask.id of the queued tasks, parallel to [w_q] *)
+  w_ctr : Z;                              (* the process-wide task id counter *)
+  w_track : bool;
+  w_lists : alist (list beh)              (* the shared task lists declared so far *)
 }.
 
+Definition w_set_q (w : wst) (q : list qitem) (ids : list Z) : wst :=
+  mkW q (w_stopped w) (w_chains w) (w_mgr w) (w_seq w) (w_posts w) ids (w_ctr w) (w_track w) (w_lists w).
+
+Definition w_set_mgr (w : wst) (m : mgr_state) : wst :=
+  mkW (w_q w) (w_stopped w) (w_chains w) m (w_seq w) (w_posts w) (w_qids w) (w_ctr w) (w_track w) (w_lists w).
+
+Definition w_set_ctr (w : wst) (v : Z) : wst :=
+  mkW (w_q w) (w_stopped w) (w_chains w) (w_mgr w) (w_seq w) (w_posts w) (w_qids w) v (w_track w) (w_lists w).
+
+(* ids (ctr+1) mod 2^32, (ctr+2) mod 2^32, ... for n consecutive AllocId calls *)
+Fixpoint alloc_ids (ctr : Z) (n : nat) : list Z :=
+  match n with O => [] | S m => alloc_id ctr :: alloc_ids (alloc_id ctr) m end.
+
+(* one Post call per item, in order: AllocId, then the send (which fails on a stopped
+   scheduler: the id is used up all the same) *)
 Definition w_enqueue (w : wst) (its : list qitem) : wst :=
-  if w_stopped w then w
-  else mkW (w_q w ++ its) false (w_chains w) (w_mgr w) (w_seq w) (w_posts w).
+  let ids := alloc_ids (w_ctr w) (length its) in
+  let w1 := w_set_ctr w (last ids (w_ctr w)) in
+  if w_stopped w then w1 else w_set_q w1 (w_q w ++ its) (w_qids w ++ ids).
 
 Definition w_post (w : wst) (p : nat) (k : kind) : wst :=
   let n := nth p (w_seq w) O in
   let w1 := w_enqueue w [QClos p n k] in
   mkW (w_q w1) (w_stopped w1) (w_chains w1) (w_mgr w1) (set_nth p (S n) (w_seq w1))
-      (set_nth p (negb (w_stopped w) :: nth p (w_posts w) []) (w_posts w1)).
+      (set_nth p (negb (w_stopped w) :: nth p (w_posts w) []) (w_posts w1))
+      (w_qids w1) (w_ctr w1) (w_track w1) (w_lists w1).
 
 Definition new_events (c : Z) (old new : list ev) : list sev :=
   map (sev_of_ev c) (skipn (length old) new).
 
+Definition w_set_chain (w : wst) (c : Z) (x : chain_state) : wst :=
+  mkW (w_q w) (w_stopped w) (aset c x (w_chains w)) (w_mgr w) (w_seq w) (w_posts w)
+      (w_qids w) (w_ctr w) (w_track w) (w_lists w).
+
 Definition w_step (w : wst) : wst * list sev :=
+  let idev := if w_track w then match w_qids w with id :: _ => [SId id] | [] => [] end else [] in
   match w_q w with
   | [] => (w, [])
-  | QClos p n _ :: q =>
-      (mkW q (w_stopped w) (w_chains w) (w_mgr w) (w_seq w) (w_posts w), [SExec (zn p) (zn n)])
+  | QClos p n _ :: q => (w_set_q w q (tl (w_qids w)), idev ++ [SExec (zn p) (zn n)])
   | QChain c it :: q =>
+      let w0 := w_set_q w q (tl (w_qids w)) in
       match aget c (w_chains w) with
       | Some (CSche tasks cs) =>
           let cs1 := run_item tasks cs it in
           let cs2 := mkC (cursor cs1) [] (pool cs1) (clog cs1) in
-          let w1 := mkW q (w_stopped w) (aset c (CSche tasks cs2) (w_chains w)) (w_mgr w) (w_seq w) (w_posts w) in
-          (w_enqueue w1 (map (QChain c) (cq cs1)), new_events c (clog cs) (clog cs1))
-      | _ => (mkW q (w_stopped w) (w_chains w) (w_mgr w) (w_seq w) (w_posts w), [])
+          (w_enqueue (w_set_chain w0 c (CSche tasks cs2)) (map (QChain c) (cq cs1)),
+           idev ++ new_events c (clog cs) (clog cs1))
+      | _ => (w0, idev)
       end
   end.
-
-Definition w_set_chain (w : wst) (c : Z) (x : chain_state) : wst :=
-  mkW (w_q w) (w_stopped w) (aset c x (w_chains w)) (w_mgr w) (w_seq w) (w_posts w).
 
 Definition esc_event (c : Z) (r : xres) : list sev :=
   match r with XOk => [] | _ => [SEsc c] end.
@@ -817,34 +1047,45 @@ Definition env_event (c : Z) (old new : est) : list sev :=
   (if Nat.ltb (e_envpanics old) (e_envpanics new) then [SEsc c] else [])
   ++ (if Nat.ltb (length (e_blocked old)) (length (e_blocked new)) then [SHang c] else []).
 
+(* the ways of running a chain: 0 waterfall.Sche, 1 the Builder, 2 Simple, 3 ExecAndWait *)
+Definition w_start (w : wst) (r : Z) (c : Z) (tasks : list beh) : wst * list sev :=
+  match aget c (w_chains w) with
+  | Some _ => (w, [])                     (* chain id already used: ignored *)
+  | None =>
+      if r <? 2 then
+        (w_enqueue (w_set_chain w c (CSche tasks (mkC 0 [] [] []))) [QChain c IStart], [])
+      else if r =? 2 then
+        match x_step tasks x_init XStart with
+        | Some (s', res) => (w_set_chain w c (CSimple tasks s'), new_events c [] (x_log s') ++ esc_event c res)
+        | None => (w, [])
+        end
+      else
+        let s' := e_settle (e_fuel tasks) tasks (estep_or_stay tasks e_init WStart) in
+        (w_set_chain w c (CWait tasks s'), new_events c [] (e_log s') ++ caller_event c e_init s')
+  end.
+
 Definition w_op (w : wst) (o : op) : wst * list sev :=
   match o with
   | OPost p k => (w_post w (Z.to_nat p) k, [])
   | OPostN p n => (iter (Z.to_nat n) (fun w => w_post w (Z.to_nat p) KOk) w, [])
   | OStep => w_step w
-  | OStop => (mkW (w_q w) true (w_chains w) (w_mgr w) (w_seq w) (w_posts w), [])
-  | OChain c tasks | OChainB c tasks =>
-      match aget c (w_chains w) with
-      | Some _ => (w, [])                 (* chain id already used: ignored *)
-      | None =>
-          let w1 := w_set_chain w c (CSche tasks (mkC 0 [] [] [])) in
-          (w_enqueue w1 [QChain c IStart], [])
+  | OStop => (mkW (w_q w) true (w_chains w) (w_mgr w) (w_seq w) (w_posts w) (w_qids w) (w_ctr w) (w_track w) (w_lists w), [])
+  | OChain c tasks => w_start w 0 c tasks
+  | OChainB c tasks => w_start w 1 c tasks
+  | OSimple c tasks => w_start w 2 c tasks
+  | OWait c tasks => w_start w 3 c tasks
+  | OList l tasks =>
+      match aget l (w_lists w) with
+      | Some _ => (w, [])                 (* list id already used: ignored *)
+      | None => (mkW (w_q w) (w_stopped w) (w_chains w) (w_mgr w) (w_seq w) (w_posts w) (w_qids w) (w_ctr w)
+                     (w_track w) (aset l tasks (w_lists w)), [])
       end
-  | OSimple c tasks =>
-      match aget c (w_chains w) with
-      | Some _ => (w, [])
-      | None =>
-          match x_step tasks x_init XStart with
-          | Some (s', r) => (w_set_chain w c (CSimple tasks s'), new_events c [] (x_log s') ++ esc_event c r)
-          | None => (w, [])
-          end
-      end
-  | OWait c tasks =>
-      match aget c (w_chains w) with
-      | Some _ => (w, [])
-      | None =>
-          let s' := e_settle (e_fuel tasks) tasks (estep_or_stay tasks e_init WStart) in
-          (w_set_chain w c (CWait tasks s'), new_events c [] (e_log s') ++ caller_event c e_init s')
+  | OShare c l r =>
+      (* the chain reads the caller's list as it is NOW; by Part 2s (Proofs.v chain_frame) that
+         is what was declared, however many chains have run or are running over it *)
+      match aget l (w_lists w) with
+      | Some tasks => w_start w r c tasks
+      | None => (w, [])
       end
   | OFire c i k =>
       match aget c (w_chains w) with
@@ -871,11 +1112,10 @@ Definition w_op (w : wst) (o : op) : wst * list sev :=
           end
       end
   | OMgrGet n =>
-      let '(m, id) := m_get (w_mgr w) n in
-      (mkW (w_q w) (w_stopped w) (w_chains w) m (w_seq w) (w_posts w), [SMgr id])
-  | OMgrDel n =>
-      (mkW (w_q w) (w_stopped w) (w_chains w) (m_del (w_mgr w) n) (w_seq w) (w_posts w), [])
-  | OConc _ _ | OConcN _ _ _ | OConcW _ _ | OConcReg _ _ => (w, [])
+      let '(m, id) := m_get (w_mgr w) n in (w_set_mgr w m, [SMgr id])
+  | OMgrDel n => (w_set_mgr w (m_del (w_mgr w) n), [])
+  | OSetId v => (w_set_ctr w v, [])
+  | OConc _ _ | OConcN _ _ _ | OConcW _ _ | OConcReg _ _ | OConcS _ _ _ _ => (w, [])
   end.
 
 Fixpoint w_ops (w : wst) (ops : list op) : wst * list (list sev) :=
@@ -906,10 +1146,11 @@ Definition w_post_results (w : wst) : list (Z * list bool) :=
                      | l => [(zn i, rev l)]
                      end) (seq 0 nposters).
 
-Definition w_init : wst := mkW [] false [] (mkM [] 0) (repeat O nposters) (repeat [] nposters).
+Definition w_init (track : bool) : wst :=
+  mkW [] false [] (mkM [] 0) (repeat O nposters) (repeat [] nposters) [] 1 track [].
 
 Definition run_chain_script (ops : list op) : obs :=
-  let '(w1, per) := w_ops w_init ops in
+  let '(w1, per) := w_ops (w_init (tracked ops)) ops in
   let '(w2, dr) := w_drain (S (total_posts ops)) w1 in
   Obs per dr (w_post_results w2) true false.
 
